@@ -244,7 +244,14 @@ fn explore_with(spec: &ReaderSpec, vios: &mut Vec<Violation>, stats: &mut SchedS
                 let f3 = crate::seqx::reappended_below_highwater(
                     &spec.hist.iter().filter_map(|o| if let SOp::W(w) = o { Some(w.clone()) } else { None }).collect::<Vec<_>>(),
                 );
-                let key = if !f3.is_empty() && got.is_err() { "F3:read-error-on-entry-reappended-below-truncated-id" } else { "concurrent-read-fails-or-differs" };
+                let panicked = got.as_ref().err().map(|e| e.contains("PANIC")).unwrap_or(false);
+                let key = if panicked {
+                    "concurrent-read-panics"
+                } else if !f3.is_empty() && got.is_err() {
+                    "F3:read-error-on-entry-reappended-below-truncated-id"
+                } else {
+                    "concurrent-read-fails-or-differs"
+                };
                 vios.push(mk(key, format!("reader {} got {:?}, model {:?}", who, got, want)));
             }
         }
